@@ -7,4 +7,4 @@ Extraction Language OCaml.
 Extraction "c03_model.ml" lfp atomval stratified check_top valid_for_read final_levels
   check_reason excl_reason reason_from_error terminal_raw terminal_mapped documented_error
   server_fallback server_final server_reason kind_of c03_ok clause1 clause2 clause3
-  lfp_q atomval_q noquirks relax_stale has_stale keep_last_recursive has_two_recursive swallow strip_ttu_userset has_ttu_userset strict_cond has_lax_cond is_tupleset.
+  lfp_q atomval_q noquirks keep_last_recursive has_two_recursive swallow strip_ttu_userset has_ttu_userset strict_cond has_lax_cond is_tupleset.
